@@ -1,7 +1,92 @@
-import Netpol.Model.Engine
-import Netpol.Model.Diff
-import Netpol.Model.Sort
+import Netpol.Proofs.Structure
+
+/-! C16: `--focusworkload` is a pure filter on the report.
+
+`Engine.connsBetweenPeers e peers focus` is the model of `getConnectionsBetweenPeers`
+(`connlist.go`); `Engine.isFocus focus p` is `isPeerFocusWorkload`. The empty focus string is
+"no focus". -/
 namespace Netpol.Properties.C16
-open Netpol
+open Netpol Netpol.Engine Netpol.Structure
+
+/-- without a focus every peer passes the filter -/
+theorem isFocus_empty (p : LPeer) : isFocus "" p = true := Structure.isFocus_empty p
+
+/-- the loop is the ordered concatenation, over all (src, dst) pairs in the order of `peers`,
+of the contribution `Structure.pairEntry` of each pair (no entry or one entry), with the first
+error otherwise -/
+theorem connsBetweenPeers_eq_collect (e : Engine) (peers : List LPeer) (f : String) :
+    e.connsBetweenPeers peers f =
+      collect (fun s => collect (fun d => pairEntry e f s d) peers) peers :=
+  connsBetweenPeers_eq e peers f
+
+/-- 5. the focused report is the unfocused report filtered by "source or destination is the
+focus workload": same entries, same order, identical connection sets; if the unfocused run has no
+error the focused one has none -/
+theorem focus_is_filter {e : Engine} {peers : List LPeer} {all : List Entry} (f : String)
+    (h : e.connsBetweenPeers peers "" = .ok all) :
+    e.connsBetweenPeers peers f =
+      .ok (all.filter fun x => isFocus f x.src || isFocus f x.dst) := by
+  rw [connsBetweenPeers_eq] at h ⊢
+  refine collect_filter _ h ?_
+  intro s _ ys hys
+  refine collect_filter _ hys ?_
+  intro d _ xs hxs
+  exact pairEntry_focus f hxs
+
+/-- 6. a focus that matches no peer gives the empty report — whatever the unfocused run does -/
+theorem focus_absent_empty {e : Engine} {peers : List LPeer} {f : String}
+    (h : ∀ p ∈ peers, isFocus f p = false) : e.connsBetweenPeers peers f = .ok [] := by
+  rw [connsBetweenPeers_eq]
+  refine collect_nil_of_all ?_
+  intro s hs
+  refine collect_nil_of_all ?_
+  intro d hd
+  exact pairEntry_no_focus (h s hs) (h d hd)
+
+/-- corollary: every entry of a focused report has the focus workload at one end -/
+theorem focus_entries_match {e : Engine} {peers : List LPeer} {f : String} {entries : List Entry}
+    (h : e.connsBetweenPeers peers f = .ok entries) :
+    ∀ x ∈ entries, (isFocus f x.src || isFocus f x.dst) = true := by
+  refine entries_forall h _ ?_
+  intro s _ d _ xs hxs x hx
+  rcases pairEntry_ok hxs with rfl | ⟨c, rfl, _, _, hf, _⟩
+  · cases hx
+  · rw [List.mem_singleton] at hx; subst hx; exact hf
+
+/-- corollary: focusing twice on the same workload changes nothing -/
+theorem focus_idempotent {e : Engine} {peers : List LPeer} {all : List Entry} (f : String)
+    (h : e.connsBetweenPeers peers "" = .ok all) :
+    ∃ r, e.connsBetweenPeers peers f = .ok r ∧
+      r.filter (fun x => isFocus f x.src || isFocus f x.dst) = r := by
+  refine ⟨_, focus_is_filter f h, ?_⟩
+  rw [List.filter_filter]; simp
+
+/-! ### non-vacuity: a concrete engine with two workloads and one IP range -/
+
+def podA : Pod := { ns := "default", name := "a", labels := [("app", "a")], ports := [] }
+def podB : Pod := { ns := "default", name := "b", labels := [("app", "b")], ports := [] }
+
+def exEngine : Engine :=
+  { namespaces := [⟨"default", [(nsNameLabelKey, "default")]⟩], pods := [podA, podB] }
+
+def exPeers : List LPeer :=
+  [.ip ⟨0, ipMax⟩, .wl "default/a[Pod]" podA, .wl "default/b[Pod]" podB]
+
+/-- the unfocused run succeeds and reports 6 pairs (3 × 3 minus the diagonal minus ip→ip) -/
+example : (exEngine.connsBetweenPeers exPeers "").toOption.map (·.length) = some 6 := by decide
+
+/-- focus on `a`: the 4 pairs with `a` at one end -/
+example : (exEngine.connsBetweenPeers exPeers "a").toOption.map (·.length) = some 4 := by decide
+
+/-- the hypothesis of `focus_absent_empty` holds for a workload that does not exist -/
+example : ∀ p ∈ exPeers, isFocus "zzz" p = false := by decide
+
+example : (exEngine.connsBetweenPeers exPeers "zzz").toOption.map (·.length) = some 0 := by decide
+
+/-- the filter keeps some entries and drops others -/
+example : isFocus "a" (.wl "default/a[Pod]" podA) = true ∧
+    isFocus "default/a" (.wl "default/a[Pod]" podA) = true ∧
+    isFocus "a" (.wl "default/b[Pod]" podB) = false ∧ isFocus "a" (.ip ⟨0, ipMax⟩) = false := by
+  decide
 
 end Netpol.Properties.C16
